@@ -299,14 +299,27 @@ fn position_in_range(start: (u32, u32), end: (u32, u32), target: LineChar) -> bo
 
 fn get_index_of_line_char(source: &str, line_char: LineChar) -> u32 {
     let mut remaining_line_breaks = line_char.line;
-    for (index, char) in source.chars().enumerate() {
+    for (index, char) in source.char_indices() {
         if char == '\n' {
             remaining_line_breaks -= 1;
         }
 
         if remaining_line_breaks == 0 {
+            // `line_char.character` counts UTF-16 code units from the start of the
+            // line. Convert it to a number of bytes, because the result is compared
+            // with (byte) spans.
+            let line_start = if char == '\n' { index + 1 } else { index };
+            let mut utf16_units = 0;
+            let mut bytes = 0;
+            for c in source[line_start..].chars() {
+                if utf16_units >= line_char.character {
+                    break;
+                }
+                utf16_units += c.len_utf16() as u32;
+                bytes += c.len_utf8();
+            }
             // Why were we off by one to begin with? This is a bad fix!
-            return index as u32 + line_char.character + 1;
+            return (index + bytes) as u32 + 1;
         }
     }
 
